@@ -94,6 +94,8 @@ type World struct {
 	Cut     map[int]bool // isolated identities (messages crossing the cut are lost)
 	Timed   bool
 	MaxLat  time.Duration
+	// PhaseRank (timed mode): identity -> arrival rank (0..3) of each phase of a round at that node
+	PhaseRank map[int][4]int
 
 	Sent      []Payload // every honest broadcast, in order
 	Proposals []Payload // every proposal ever seen on the wire
@@ -236,12 +238,34 @@ func (w *World) send(p Payload, from, to int) {
 	msg := &Msg{P: p, From: from, To: to, Seq: w.seq}
 	if w.Timed {
 		lat := time.Duration(0)
-		if w.MaxLat > 0 {
+		if w.MaxLat > 0 && len(w.PhaseRank) > 0 {
+			// phase skew: at the chosen nodes whole phases of a round arrive in a drawn order
+			// (rank r of 4: [r/4, r/4+1/8] of MaxLat); the other links are fast (<= MaxLat/40)
+			j := time.Duration(Scramble(w.R.Intn("lat", 21), 21))
+			if rk, ok := w.PhaseRank[to]; ok {
+				lat = time.Duration(rk[phaseOf(p.T)])*w.MaxLat/4 + j*w.MaxLat/160
+			} else {
+				lat = j * w.MaxLat / 800
+			}
+		} else if w.MaxLat > 0 {
 			lat = time.Duration(Scramble(w.R.Intn("lat", 21), 21)) * w.MaxLat / 20
 		}
 		msg.At = w.Clock.Add(lat)
 	}
 	w.Flight = append(w.Flight, msg)
+}
+
+// phaseOf maps a message type to one of the four phases of a round (everything else travels with the proposal).
+func phaseOf(t dbft.MessageType) int {
+	switch t {
+	case dbft.PrepareResponseType:
+		return 1
+	case dbft.PreCommitType:
+		return 2
+	case dbft.CommitType:
+		return 3
+	}
+	return 0
 }
 
 func (w *World) onAccepted(n *Node, b *vt.Block) { w.Stat("accepted") }
@@ -355,6 +379,9 @@ func (w *World) Render() string {
 	c := w.Cfg
 	fmt.Fprintf(&sb, "config: ids=%d validators=%s startTip=%d amev=%d tpb=%s maxtpb=%s inc=%d epoch=%s timed=%v byz=%v\n",
 		c.IDs, c.ValDesc, c.StartTip, c.AMEVHeight, c.TimePerBlock, c.MaxTimePerBlock, c.TsIncrement, c.Epoch.UTC().Format(time.RFC3339Nano), w.Timed, w.Byz)
+	if len(w.PhaseRank) > 0 {
+		fmt.Fprintf(&sb, "phase skew (arrival rank of proposal/response/pre-commit/commit per node): %v\n", w.PhaseRank)
+	}
 	for _, v := range w.Viols {
 		fmt.Fprintf(&sb, "VIOLATION %s at step %d key=%s: %s\n", v.Prop, v.Step, v.Key, v.Msg)
 	}
